@@ -23,7 +23,7 @@ META = dict(
     exhaustive=True,
     bounds=dict(quick='words depth<=2 over 10 symbols + depth 3 over 6 symbols, every stop position, 14 valid + 3 immersion '
                       'configurations each; 24 samples',
-                thorough='words depth<=3 over 10 symbols + depth 4 over 6 symbols, every stop, 14 configurations, '
+                thorough='words depth<=3 over 10 symbols + depth 4 over 5 symbols, every stop, 14 configurations, '
                          '4 numeric variants; samples'),
     tolerances=dict(cross_derivation='1e-8 relative to max(1,|value|,|f|)'),
     assumptions=['f2 defined as -y0/u_k (signed), F1 from first vertex, F2/XPL from image surface, as the library '
@@ -72,7 +72,7 @@ def units(tier, variant):
     if tier == 'quick':
         ws = list(LZ.words(A, 1, 2)) + list(LZ.words(A[:6], 3, 3))
     else:
-        ws = list(LZ.words(A, 1, 3)) + list(LZ.words(A[:6], 4, 4))
+        ws = list(LZ.words(A, 1, 3)) + list(LZ.words(A[:5], 4, 4))
     out = []
     for w in ws:
         for s in range(len(w)):
